@@ -42,7 +42,7 @@ type Cond struct {
 
 type CaseIn struct {
 	Types    []string    `json:"types"`    // key column types: int float string bool
-	Rows     [][]*string `json:"rows"`     // sorted (nulls last); each row: key columns then "v" (int)
+	Rows     [][]*string `json:"rows"`     // in the writer's sort order (generated cases); each row: key columns then "v" (int)
 	Sizes    []int       `json:"sizes"`    // fragment sizes, all >= 1, sum = len(rows)
 	Cond     *Cond       `json:"cond"`
 	TimeCond bool        `json:"timecond"` // pass a time-bounds condition as the first argument of NewKeyCondition
@@ -86,6 +86,7 @@ type CaseOut struct {
 	ID     int     `json:"id"`
 	In     *CaseIn `json:"in"`
 	IsInt  []bool  `json:"isint"`
+	Pads   []int64 `json:"pads"` // per key column: encoding of the value the writer's sort pads a null with
 	Keys   [][]*int64 `json:"keys"` // encoded key rows
 	Used   int     `json:"used"`
 	NFrag  int     `json:"nfrag"`
@@ -194,18 +195,19 @@ func cmpVal(ty string, a, b tval) int {
 	panic("type")
 }
 
-// cmpKey: nulls are the greatest (as PKIndexReaderImpl treats them)
-func cmpKey(ty string, a, b tval) int {
-	if a.null && b.null {
-		return 0
+// padVal: the value record.SortForColumnStore sorts a null of this type as (lib/record/sort_item.go Pad*Slice)
+func padVal(ty string) tval {
+	switch ty {
+	case "int":
+		return tval{i: math.MinInt64}
+	case "float":
+		return tval{f: -math.MaxFloat64}
+	case "string":
+		return tval{s: ""}
+	case "bool":
+		return tval{b: false}
 	}
-	if a.null {
-		return 1
-	}
-	if b.null {
-		return -1
-	}
-	return cmpVal(ty, a, b)
+	panic("type")
 }
 
 func fieldType(ty string) int {
@@ -590,6 +592,7 @@ func runCase(id int, in *CaseIn) *CaseOut {
 		for _, r := range w.rows {
 			encs[c].add(r[c])
 		}
+		encs[c].add(padVal(in.Types[c]))
 	}
 	collectLits(in.Cond, func(a *Cond) {
 		if a.Col >= 0 && a.Op != "in" {
@@ -598,6 +601,7 @@ func runCase(id int, in *CaseIn) *CaseOut {
 	})
 	for c := 0; c < w.nk; c++ {
 		encs[c].finish()
+		out.Pads = append(out.Pads, *encs[c].enc(padVal(in.Types[c])))
 	}
 	for _, r := range w.rows {
 		kr := make([]*int64, w.nk)
@@ -722,22 +726,10 @@ func runCase(id int, in *CaseIn) *CaseOut {
 		idx, _, e2 := w.build()
 		if e1 == nil && e2 == nil {
 			used := kc2.GetMaxKeyIndex() + 1
-			cols := make([]*sparseindex.ColumnRef, used)
-			for c := 0; c < used; c++ {
-				cols[c] = sparseindex.NewColumnRef(keyName(c), types[c], idx.Column(c))
-			}
-			L := make([]*sparseindex.FieldRef, used)
-			R := make([]*sparseindex.FieldRef, used)
-			for c := 0; c < used; c++ {
-				L[c] = sparseindex.NewFieldRef(cols, c, pr[0])
-				if L[c].IsNull() {
-					L[c].SetPositiveInfinity()
-				}
-				R[c] = sparseindex.NewFieldRef(cols, c, pr[1])
-				if R[c].IsNull() {
-					R[c].SetPositiveInfinity()
-				}
-			}
+			// index rows read through the reader's own createFieldRefFunc (hook VerifIndexRowRefs): a null cell is read
+			// the way PKIndexReaderImpl.Scan reads it
+			L := reader.VerifIndexRowRefs(idx, used, pr[0])
+			R := reader.VerifIndexRowRefs(idx, used, pr[1])
 			var ok bool
 			var e3 error
 			p := guard(func() { ok, e3 = kc2.MayBeInRange(used, L, R, types) })
@@ -791,22 +783,10 @@ func runCase(id int, in *CaseIn) *CaseOut {
 				continue
 			}
 			used := out.Used
-			cols := make([]*sparseindex.ColumnRef, used)
-			for c := 0; c < used; c++ {
-				cols[c] = sparseindex.NewColumnRef(keyName(c), types[c], idx.Column(c))
-			}
-			L := make([]*sparseindex.FieldRef, used)
-			R := make([]*sparseindex.FieldRef, used)
-			for c := 0; c < used; c++ {
-				L[c] = sparseindex.NewFieldRef(cols, c, pr[0])
-				if L[c].IsNull() {
-					L[c].SetPositiveInfinity()
-				}
-				R[c] = sparseindex.NewFieldRef(cols, c, pr[1])
-				if R[c].IsNull() {
-					R[c].SetPositiveInfinity()
-				}
-			}
+			// index rows read through the reader's own createFieldRefFunc (hook VerifIndexRowRefs): a null cell is read
+			// the way PKIndexReaderImpl.Scan reads it
+			L := reader.VerifIndexRowRefs(idx, used, pr[0])
+			R := reader.VerifIndexRowRefs(idx, used, pr[1])
 			cp := CbProbe{S: pr[0], E: pr[1], Table: []CbEntry{}, Final: [2]int{-1, -1}}
 			end := func(c int, f *sparseindex.FieldRef) (*int64, int) {
 				if f.IsNegativeInfinity() {
@@ -1048,14 +1028,22 @@ func genCase(r *gen.Rand) *CaseIn {
 		row[nk] = tval{i: int64(r.Intn(4))}
 		rows[i] = row
 	}
-	sort.SliceStable(rows, func(i, j int) bool {
-		for c := 0; c < nk; c++ {
-			if k := cmpKey(in.Types[c], rows[i][c], rows[j][c]); k != 0 {
-				return k < 0
+	// the rows are put into the order of the column store's flush sort by the REAL record.SortHelper.SortForColumnStore
+	// (a null key sorts as the smallest value the writer knows for the type, lib/record/sort_item.go Pad*Slice); this is
+	// the only order a primary-index record is ever built from
+	{
+		tmp := &CaseIn{Types: in.Types, WriterSort: true}
+		for _, row := range rows {
+			sr := make([]*string, nk+1)
+			for c := 0; c < nk; c++ {
+				sr[c] = fmtVal(in.Types[c], row[c])
 			}
+			sr[nk] = fmtVal("int", row[nk])
+			tmp.Rows = append(tmp.Rows, sr)
 		}
-		return false
-	})
+		rows = newWorld(tmp).rows
+		in.WriterSort = true
+	}
 	for _, row := range rows {
 		sr := make([]*string, nk+1)
 		for c := 0; c < nk; c++ {
@@ -1273,10 +1261,6 @@ func main() {
 			}
 		}
 		textMode = false
-		if i%9 == 5 && in.Tag == "" {
-			in.WriterSort = true
-			in.Tag = "wsort"
-		}
 		if i%25 == 24 && in.Tag == "" {
 			in = genSpecial(r, in)
 		}
